@@ -1,6 +1,7 @@
 (* C09: queue, stack and grow buffer refine their ideal counterparts; FIFO, LIFO and concatenation corollaries. *)
 From Coq Require Import NArith ZArith List Bool Lia.
 From QV.Base Require Import Res.
+From QV.Gen Require Import SeqWrap.
 From QV.Seq Require Import ListModel ListSpec WrapModel WrapSpec ListProofs.
 Import ListNotations. Import QL QLS QW QWS.
 Local Open Scope Z_scope.
@@ -29,6 +30,14 @@ Proof.
   unfold acc_res, acc_pos. cbn [Z.ltb Z.compare]. rewrite len_cons. pose proof (len_nonneg r).
   destruct (Z.leb_spec 0 0); [|lia]. destruct (Z.ltb_spec 0 (len r + 1)); [reflexivity|lia].
 Qed.
+
+(* the ends addressed by the wrapper functions, as read from the source by the translator, are the expected ones:
+   queue pushes at the back, stack pushes at the front, both pop and get at the front; grow adds at the back *)
+Definition push_index (k : kind) : Z := match k with Queue => -1 | Stack => 0 end.
+Lemma wrap_ends k f : end_of k f = match f with FPush | FPushStr | FPushInt => push_index k | _ => 0 end.
+Proof. destruct k, f; reflexivity. Qed.
+Lemma grow_ends : grow_add_index = -1 /\ grow_addstr_index = -1.
+Proof. split; reflexivity. Qed.
 
 Definition WR (q : qlist) (st : wstate) : Prop := datas (items q) = fst st /\ maxn q = snd st.
 
@@ -80,7 +89,7 @@ Lemma wstep_refines k q st o : Inv q -> WR q st -> len (fst st) < 2^31 -> wf_wop
   exists q', wstep k q o = Ok (q', snd (wsstep k st o)) /\ Inv q' /\ WR q' (fst (wsstep k st o)).
 Proof.
   intros I HR Hn Hw Hu.
-  destruct o; cbn [wstep wf_wop] in *.
+  destruct o; cbn [wstep wf_wop] in *; rewrite ?wrap_ends.
   - (* push *)
     destruct (push_step k q st d I HR Hn) as (q' & r & Ha & Ho & I' & HR'). rewrite Ha. cbn [bind fst snd]. rewrite Ho.
     destruct st. exists q'. auto.
@@ -171,7 +180,7 @@ Proof. unfold ws_push, gs_add. destruct d as [[|c b]|]; reflexivity. Qed.
 Lemma gstep_refines q l o : Inv q -> WR q (l, 0) -> len l < 2^31 -> snd (gsstep l o) <> OUndef ->
   exists q', gstep q o = Ok (q', snd (gsstep l o)) /\ Inv q' /\ WR q' (fst (gsstep l o), 0).
 Proof.
-  intros I HR Hn Hu. destruct o; cbn [gstep gsstep] in *.
+  intros I HR Hn Hu. destruct grow_ends as [Eg1 Eg2]. destruct o; cbn [gstep gsstep] in *; rewrite ?Eg1, ?Eg2.
   - destruct (push_step Queue q (l, 0) d I HR Hn) as (q' & r & Ha & Ho & I' & HR'). cbn [push_index] in Ha. rewrite Ha. cbn [bind fst snd].
     rewrite Ho. rewrite gs_add_push in *. cbn [fst snd] in *. exists q'. auto.
   - destruct s as [s|]; [|cbn in Hu; congruence].
